@@ -429,7 +429,11 @@ func (g G) Body(level int, o SchemaOpts, isDep bool) m.BodyM {
 		b.Ext = &m.ExtM{Count: g.Chance(50), ForEach: g.Chance(50), Dynamic: g.Chance(dynPct), SelfRefs: g.Chance(40)}
 	}
 	if level > 0 || isDep {
-		if g.Chance(15) {
+		tgtPct := 15
+		if o.DepBoost {
+			tgtPct = 30 // targetables of the static and of the dependent body are merged
+		}
+		if g.Chance(tgtPct) {
 			n := g.Int(1, 2)
 			for i := 0; i < n; i++ {
 				b.TargetableAs = append(b.TargetableAs, g.targetable(1))
@@ -515,7 +519,11 @@ func (g G) Block(level int, o SchemaOpts) m.BlockM {
 		// map blocks are keyed by their first label
 		bl.Labels = append(bl.Labels, m.LabelM{Name: "key"})
 	}
-	if !g.Chance(5) {
+	noBody := 5
+	if o.DepBoost {
+		noBody = 15 // blocks whose whole body comes from a dependent body
+	}
+	if !g.Chance(noBody) {
 		body := g.Body(level, o, false)
 		bl.Body = &body
 	}
@@ -752,7 +760,7 @@ func (g G) Funcs(wide bool, huge ...bool) map[string]m.FuncM {
 	out := map[string]m.FuncM{}
 	names := []string{"f", "fn", "g", "lower", "join", "f2", "h"}
 	if g.Chance(50) {
-		names = append([]string{"provider::aws::fo", "ns::f"}, names...)
+		names = append([]string{"provider::aws::fo", "ns::f", "ns::fé"}, names...)
 	}
 	if g.Chance(30) {
 		names = Perm(g, names)
